@@ -143,8 +143,8 @@ def r3(R, repo):
   R.judge(len(flag) == 1 and bool(elems), ok, key_of(f, 'separator before each element when flax_fix_rng_separator'), f,
           'with the separator fix enabled a separator byte must be hashed before every element (so ("ab","c") and ("a","bc") differ)')
   # every element contributes: str and int branches update, anything else raises
-  ts = [n for n in c.nodes if n.kind == 'if' and astu.isinstance_test(n.ast, x)]
-  kinds = sorted(t for n in ts for t in astu.isinstance_test(n.ast, x)[1])
+  ts = [n for n in c.nodes if n.kind == 'if' and astu.isinstance_test_pol(n.ast, x)]
+  kinds = sorted(t for n in ts for t in astu.isinstance_test_pol(n.ast, x)[1])
   raises = [n for n in body if isinstance(n.stmt, ast.Raise)]
   firsts = [m for m, lab in c.succ[lp] if lab == 'T']
   ok = kinds == ['int', 'str'] and len(elems) == 2 and len(raises) == 1 and all(s in elems or lp not in c.reach([s], avoid=elems) for s in firsts)
@@ -247,8 +247,13 @@ def r5(R, repo):
   fb = [n for n in c.nodes if isinstance(n.stmt, ast.Assign) and astu.src(n.stmt.value) == "rngs_vars['default']"]
   ex = [n for n in c.nodes if isinstance(n.stmt, ast.Assign) and astu.src(n.stmt.value) == 'rngs_vars[%s]' % name]
   rs = [n for n in c.nodes if isinstance(n.stmt, ast.Raise)]
-  ok = len(t1) == 1 and len(t2) == 1 and len(fb) == 1 and len(ex) == 1 and len(rs) == 1 and c.edge_guarded(fb[0], t1[0], 'T') and c.edge_guarded(ex[0], t1[0], 'F') and c.edge_guarded(rs[0], t2[0], 'T')
-  R.judge(len(t1) == 1 and len(t2) == 1 and len(fb) == 1 and len(ex) == 1 and len(rs) == 1, ok, key_of(g, "missing stream -> 'default' else raise"), g, "Rngs must return the named stream when it exists, fall back to 'default' otherwise, and raise when neither exists")
+  _in = lambda what: (lambda e: isinstance(e, ast.Compare) and len(e.ops) == 1 and isinstance(e.ops[0], ast.In) and astu.src(e.left) == what and astu.src(e.comparators[0]) == 'rngs_vars')
+  _nin = lambda what: (lambda e: isinstance(e, ast.Compare) and len(e.ops) == 1 and isinstance(e.ops[0], ast.NotIn) and astu.src(e.left) == what and astu.src(e.comparators[0]) == 'rngs_vars')
+  has = lambda what, n_: evid.guarded(c, n_, _in(what)) == 'yes' or evid.guarded(c, n_, _nin(what), negative=True) == 'yes'
+  lacks = lambda what, n_: evid.guarded(c, n_, _nin(what)) == 'yes' or evid.guarded(c, n_, _in(what), negative=True) == 'yes'
+  found_ = len(fb) == 1 and len(ex) == 1 and len(rs) == 1 and any(evid.mentions(n_.ast, lambda e: _in(name)(e) or _nin(name)(e)) for n_ in c.nodes if n_.kind == 'if')
+  ok = found_ and lacks(name, fb[0]) and has(name, ex[0]) and lacks("'default'", rs[0]) and lacks(name, rs[0])
+  R.judge(found_, ok, key_of(g, "missing stream -> 'default' else raise"), g, "Rngs must return the named stream when it exists, fall back to 'default' otherwise, and raise when neither exists")
 
 
 @rule('C09.R6', 'K1+K4', 6, 'split / restore / reseed never replay a key')
